@@ -1,6 +1,7 @@
 (* C09 - Finite stimuli honour their duration contract and envelope shape.
    Property theorems only; every proof is `exact <lemma of Stim/Proofs*.v>`. *)
 From PV Require Import Stim.Model Stim.Spec Stim.Proofs Stim.ProofsC09 Stim.Cos2R.
+From PV Require FloatGrid.Statements.
 
 (* the sample count reported is start + duration (array length for fixed / repeated waveforms) *)
 Theorem C09_totals : forall g,
@@ -58,6 +59,12 @@ Print Assumptions C09_rise_rejected.
 Theorem C09_cos2_unit_interval : cos2ramp_within_unit_interval.
 Proof. exact cos2ramp_unit_interval. Qed.
 Print Assumptions C09_cos2_unit_interval.
+
+(* start_samples / duration_samples / i_rise_time are int(round(t*fs)): for a time given as k/fs this is k
+   at every real rate in [1, 2^40] (binary64, Flocq; statement in FloatGrid/Statements.v) *)
+Theorem C09_sample_counts_on_grid : FloatGrid.Statements.time_to_samples_on_grid.
+Proof. exact FloatGrid.Statements.time_to_samples_on_grid_holds. Qed.
+Print Assumptions C09_sample_counts_on_grid.
 
 Example C09_ex : wf (GRepeat 3 1 12 2 (GEnv 2 0 8 2 (GCar 1))) = true /\
   finite_total (GRepeat 3 1 12 2 (GEnv 2 0 8 2 (GCar 1))) = Some 48.
